@@ -1652,6 +1652,7 @@ def run(ctx):
         "base32 (RFC 4648 alphabet, no padding, case folding) is modelled concretely and its round trip is proved (C15_b32_roundtrip); the real coding is compared with it on every run",
         "X25519, Elligator, AES, noise are section variables with the stated algebraic laws (not proved)",
         "the Go in-package drivers, the case generators and the JSON->Gallina emitter are trusted",
+        "sequence theorems (Props3.v): the randomness of call i is the explicit argument r_i; freshness over a sequence is proved under the stated hypothesis on the stream (pairwise different pads; pairwise different representatives or high bits), which the tie checks on the implementation as 'held encodings pairwise different'",
     ]
     ctx.cov["trusted_base"] = [
         "Coq 8.16.1 kernel (coqc; coqchk in the thorough tier); vm_compute used for evaluating the model on cases; no native_compute",
@@ -1660,7 +1661,11 @@ def run(ctx):
     ]
     ctx.cov["rule"] = ("encoders on every payload/label/name length 0..limit+2 with random content, decoders on random and "
                        "near-valid byte strings (pointer chains, loops, truncation); a case is non-trivial if it is hash-distinct "
-                       "and either succeeds or exercises a distinct rejection (counted per op)")
+                       "and either succeeds or exercises a distinct rejection (counted per op); every encoder additionally in batch "
+                       "mode (k calls in a row / with one reused input buffer / from two concurrent callers, every result held until "
+                       "the last call has returned, then all decoded): values repeated, of equal, smaller and larger length than the "
+                       "earlier ones, a rejected value in the middle; sequences of exchanges through one requester and one responder; "
+                       "responses back to back into the requester's receive loop")
     ctx.coq_props(props_files=["C15/Props.v", "C15/Props2.v", "C15/Props3.v"])
     rc, out = ctx.coq_make(["C15/Examples.vo", "C15/Run.vo"])
     if rc != 0:
